@@ -3,7 +3,8 @@ C20 — matrix-subspace decomposition is exact and rank certificates are sound.
 
 Property theorems only (helper lemmas: `NumqiProofs/MatrixSpaceLemmas.lean`, `MatrixSpaceMinors.lean`).
 All statements are about the constants of `NumqiModel/MatrixSpace.lean` that `Driver/C20.lean` executes and about
-the comparison operators regenerated from the source (`NumqiModel/Generated/Thresholds20.lean`).
+the comparison operators regenerated from the source (`NumqiModel/Generated/Thresholds20.lean`) — those theorems live in
+`NumqiProps/C20Decision.lean`, so that a change of the generated data cannot take the theorems of this file down.
 External routines enter as hypotheses ("contracts"): svd/eigh (orthonormal output), eigvalsh/eigsh (Rayleigh bound),
 `minimize_scalar` (returns a value of its objective), `eigvalsh` of the Gram matrix (0 for a singular PSD matrix).
 -/
@@ -18,7 +19,6 @@ import NumqiProofs.MatrixSpaceDense
 import NumqiProofs.MatrixSpaceOrth
 import NumqiProofs.MatrixSpaceGellmann
 import NumqiProofs.MatrixSpaceChain
-import NumqiModel.Generated.Thresholds20
 import Mathlib.Data.List.Sort
 import Mathlib.Data.Real.Basic
 
@@ -215,54 +215,7 @@ theorem rank_one_upper_bound_ge_one (dA dB K : Nat) (B : Nat → Nat → Nat →
   unfold quadForm at h1
   linarith
 
-/-! ## 4. decision layer (comparisons regenerated from the source) -/
-
-open Numqi.Generated.Thresholds20
-
-/-- **the rank-one certificate is sound up to the slack `zero_eps`**: if the exact bound is `≥ 1` (previous theorem) and the
-computed one is within `δ ≤ zero_eps` of it, "no rank-one element" is *not* issued.  With the pre-repair comparison
-`upper_bound < 1` this statement is false for every `δ > 0` (it fails to elaborate if the source is reverted). -/
-theorem rankOneCert_sound (computed exact δ zero_eps : ℝ) (hexact : 1 ≤ exact)
-    (hround : |computed - exact| ≤ δ) (hslack : δ ≤ zero_eps) : rankOneCert computed zero_eps = false := by
-  have := abs_le.1 hround
-  simp only [rankOneCert, decide_eq_false_iff_not, not_lt]
-  linarith [this.1]
-
-/-- the default slack is positive -/
-theorem rankOneCert_default_slack_pos :
-    rankOneCertEpsNeg = false ∧ 0 < (rankOneCertEpsNum : ℚ) / rankOneCertEpsDen := by
-  refine ⟨rfl, ?_⟩; norm_num [rankOneCertEpsNum, rankOneCertEpsDen]
-
-/-- **the decision quantity of both Gram-matrix certificates is the smallest eigenvalue** (`np.linalg.eigvalsh(G)[0]`), as recorded by
-the translator from the source.  Fail-safe: any other routine left of `> zero_eps` — in particular the partial-pivot LU pivots of the
-repaired defect 561406a, which are not rank revealing — is translated to another `DecisionKind` and this obligation no longer
-elaborates; the concrete failing inputs are the regression corpus `corpus/C20/*.json`. -/
-theorem decisionIsRankRevealing :
-    hierarchyCertKind = DecisionKind.smallestEigenvalue ∧ abcCertKind = DecisionKind.smallestEigenvalue := by decide
-
-/-- **the Gram-matrix certificates are sound up to their slack.**  Contract (only available for the kind
-`smallestEigenvalue`): the computed decision quantity is within `δ` of the exact smallest eigenvalue `lamMin` of the Gram matrix;
-for a linearly dependent family `lamMin = 0` (`gram_lambda_min_zero`); if `δ ≤ zero_eps` — **hypothesis, not provable: adequacy of
-the absolute threshold against the rounding of `eigvalsh`** — the certificate is not issued. -/
-theorem hierarchyCert_sound (computed lamMin δ zero_eps : ℝ)
-    (_hkind : hierarchyCertKind = DecisionKind.smallestEigenvalue ∧ abcCertKind = DecisionKind.smallestEigenvalue)
-    (hsing : lamMin = 0) (hround : |computed - lamMin| ≤ δ) (hslack : δ ≤ zero_eps) :
-    hierarchyCert computed zero_eps = false ∧ abcCert computed zero_eps = false := by
-  subst hsing
-  have := abs_le.1 hround
-  simp only [hierarchyCert, abcCert, decide_eq_false_iff_not, not_lt, gt_iff_lt]
-  constructor <;> linarith [this.2]
-
-/-- the same with the kind obligation discharged for the source as it stands -/
-theorem hierarchyCert_sound_current (computed lamMin δ zero_eps : ℝ) (hsing : lamMin = 0)
-    (hround : |computed - lamMin| ≤ δ) (hslack : δ ≤ zero_eps) :
-    hierarchyCert computed zero_eps = false ∧ abcCert computed zero_eps = false :=
-  hierarchyCert_sound computed lamMin δ zero_eps decisionIsRankRevealing hsing hround hslack
-
-theorem hierarchyCert_default_slack_pos :
-    hierarchyCertEpsNeg = false ∧ 0 < (hierarchyCertEpsNum : ℚ) / hierarchyCertEpsDen
-    ∧ abcCertEpsNeg = false ∧ 0 < (abcCertEpsNum : ℚ) / abcCertEpsDen := by
-  refine ⟨rfl, ?_, rfl, ?_⟩ <;> norm_num [hierarchyCertEpsNum, hierarchyCertEpsDen, abcCertEpsNum, abcCertEpsDen]
+/-! ## 4. decision layer: `NumqiProps/C20Decision.lean` (the only file that imports the generated comparisons) -/
 
 /-! ## 5. numerical range -/
 
@@ -697,17 +650,6 @@ theorem gram_lambda_min_zero {ι κ : Type} [Fintype ι] [Fintype κ] [Decidable
     (hatt : ∃ y : ι → ℂ, star y ⬝ᵥ (gramOf v *ᵥ y) = (lam : ℂ)) : lam = 0 :=
   MatrixSpace.gram_lambda_min_zero v d hrel hd lam hmin hatt
 
-/-- **the chain closed**: a family with a non-trivial linear relation is never certified, given the `eigvalsh` contract and the
-rounding bound `|computed − λ_min| ≤ δ ≤ zero_eps` (the one hypothesis that is about floating point; the regression corpus holds the
-inputs on which the former LU decision violated it). -/
-theorem certificate_not_issued {ι κ : Type} [Fintype ι] [Fintype κ] [DecidableEq ι] (v : ι → κ → ℂ) (d : ι → ℂ)
-    (hrel : ∀ x, ∑ α, d α * v α x = 0) (hd : d ≠ 0) (lam : ℝ)
-    (hmin : ∀ y : ι → ℂ, lam * (star y ⬝ᵥ y).re ≤ (star y ⬝ᵥ (gramOf v *ᵥ y)).re)
-    (hatt : ∃ y : ι → ℂ, star y ⬝ᵥ (gramOf v *ᵥ y) = (lam : ℂ))
-    (computed δ zero_eps : ℝ) (hround : |computed - lam| ≤ δ) (hslack : δ ≤ zero_eps) :
-    hierarchyCert computed zero_eps = false ∧ abcCert computed zero_eps = false :=
-  hierarchyCert_sound_current computed lam δ zero_eps (MatrixSpace.gram_lambda_min_zero v d hrel hd lam hmin hatt) hround hslack
-
 end chain
 
 /-! ## non-vacuity -/
@@ -719,10 +661,6 @@ example : quadForm 2 2 (mixPT (3 : ℚ) (projector 1 fun _ a b => if a = 0 ∧ b
   · intro a ha b hb; interval_cases a <;> interval_cases b <;> simp
   · intro k hk l hl; interval_cases k; interval_cases l; simp [Finset.sum_range_succ]
   · simp [Finset.sum_range_succ]
-
-/-- the certificate is issued for a bound well below one, and withheld at one -/
-example : rankOneCert (1/2 : ℚ) (1/10000000) = true ∧ rankOneCert (1 : ℚ) (1/10000000) = false := by
-  constructor <;> simp [rankOneCert] <;> norm_num
 
 /-- level-2 entry on concrete data: generators `E₀₀+E₁₁`, `E₀₁`; multi-index (0,0,1), rows/cols (0,1), K = 1 -/
 example : hierVecEntry (fun k i j => if k = 0 then (if i = j then (1 : ℤ) else 0) else (if i = 0 ∧ j = 1 then 1 else 0)) 2 2 2
